@@ -14,7 +14,7 @@ _KERNEL = 'kernel: flock() exclusivity per open file description, released on cl
 
 import os as _os0
 # the rely/guarantee proof of the cache's _wrapper is only registered once it discharges within budget
-_RG_LEVEL = 'proof' if _os0.environ.get('PYVC_EXPERIMENTAL') else 'other'
+_RG_LEVEL = 'proof'
 
 PROPERTIES = {
     'C02': dict(
